@@ -119,6 +119,38 @@ def extract(repo):
         raise ValueError("TYPEPrint/TYPEPrint_cc: cannot tell where TYPEprint_new is called for enumerations and selects")
     creation = "beforeInits" if in_create else "ownInit"
 
+    # ---- ordered_attrs.cc: does an own attribute that repeats an inherited name ALWAYS mark the inherited one derived,
+    #      or only when it is itself in the DERIVE clause (has an initializer)?
+    oa = _strip_comments(rd("src/express/ordered_attrs.cc"))
+    pb = re.sub(r"\s+", "", _body(oa, r"void\s+populateAttrList\s*\([^)]*\)\s*\{"))
+    if "unique=false;if(attr->initializer){list[i]->deriver=ent;}break;" in pb:
+        explicit_marks = "false"
+    elif "unique=false;list[i]->deriver=ent;break;" in pb:
+        explicit_marks = "true"
+    else:
+        raise ValueError("populateAttrList: the rule that marks an inherited attribute derived is not recognised")
+    if "if(attr->initializer){oa->deriver=ent;}else{oa->deriver=0;}" not in pb:
+        raise ValueError("populateAttrList: the rule for a new attribute (derived by its owner iff it has an initializer) changed")
+    # ---- NonRefTypeDescriptor: the loop that follows REFERENCE_TYPE links
+    td = _strip_comments(rd("src/clstepcore/typeDescriptor.cc"))
+    nb = re.sub(r"\s+", "", _body(td, r"const\s+TypeDescriptor\s*\*\s*TypeDescriptor::NonRefTypeDescriptor\s*\(\s*\)\s*const\s*\{"))
+    if nb == "{constTypeDescriptor*td=this;while(td->ReferentType()){if(td->Type()!=REFERENCE_TYPE){returntd;}td=td->ReferentType();}returntd;}":
+        link_bound = "none"
+    else:
+        m = re.search(r"while\(td->ReferentType\(\)&&\((\w+)\+\+<(\w+)\)\)", nb)
+        if not m:
+            raise ValueError("TypeDescriptor::NonRefTypeDescriptor: loop not recognised")
+        lim = m.group(2)
+        if not lim.isdigit():
+            mm = re.search(r"#define\s+" + lim + r"\s+(\d+)", td)
+            if not mm:
+                raise ValueError(f"NonRefTypeDescriptor: bound {lim} not a literal")
+            lim = mm.group(1)
+        link_bound = f"some {lim}"
+    bb = re.sub(r"\s+", "", _body(td, r"const\s+TypeDescriptor\s*\*\s*TypeDescriptor::BaseTypeDescriptor\s*\(\s*\)\s*const\s*\{"))
+    if bb != "{constTypeDescriptor*td=this;while(td->ReferentType()){td=td->ReferentType();}returntd;}":
+        raise ValueError("TypeDescriptor::BaseTypeDescriptor: loop not recognised")
+
     def codes(s):
         return "[" + ", ".join(str(ord(x)) for x in s) + "]"
     text = f"""/- generated by tools/extract.d/dictgen.py from src/clstepcore/STEPattributeList.cc, STEPattribute.cc,
@@ -141,6 +173,13 @@ inductive DescCreation | beforeInits | ownInit
     `InitSchemasAndEnts` (SdaiAll.cc), or inside the type's own `init_Sdai<T>` function (which runs after the init
     code of the other defined types, whose `ReferentType( t_<T> )` then reads a null pointer) -/
 def descCreation : DescCreation := .{creation}
+
+/-- ordered_attrs.cc `populateAttrList`: an own attribute that repeats an inherited name marks the inherited attribute
+    "derived by this entity" always (true), or only when it is in the DERIVE clause (false) -/
+def explicitRedeclMarksDerived : Bool := {explicit_marks}
+
+/-- `TypeDescriptor::NonRefTypeDescriptor`: maximal number of REFERENCE_TYPE links the loop follows (`none` = no bound) -/
+def nonRefLinkBound : Option Nat := {link_bound}
 
 /-- `LITERAL_INFINITY->u.integer` -/
 def literalInfinity : Int := {inf}
